@@ -195,7 +195,26 @@ pub fn run(opts: &Opts, rep: &mut Report) {
                 format!("case {}:{}:{} len={n} shape={} threads={threads}", opts.seed, opts.shard, idx, if adversary { "antiquicksort" } else { shape }),
             );
         }
-        let keys = if idx % 9 == 4 && n >= 64 {
+        // the shape the worker produces for a selective pattern: a large majority of identical placeholder keys
+        // and a few thousand distinct real keys; the flag is raised around the time the distinct side is sorted
+        let sentinel_heavy = idx % 7 == 3 && opts.max_len >= 40_000 && !opts.small;
+        let (n, short_side) = if sentinel_heavy {
+            let n = rng.range(33_000, 160_000);
+            (n, rng.range(2100, (n / 8).max(2200)))
+        } else {
+            (n, 0)
+        };
+        let keys = if sentinel_heavy {
+            shape = "sentinel-heavy";
+            let placeholder = if rng.coin() { u32::MAX } else { 0 };
+            let mut v = vec![placeholder; n];
+            // the real keys sit at random positions (the parallel scan leaves them in index order)
+            for _ in 0..short_side {
+                let p = rng.below(n);
+                v[p] = 1 + rng.next_u64() as u32 % 1_000_000;
+            }
+            v
+        } else if idx % 9 == 4 && n >= 64 {
             shape = "antiquicksort";
             antiqsort_keys(n, pools[0].as_ref())
         } else {
@@ -211,7 +230,14 @@ pub fn run(opts: &Opts, rep: &mut Report) {
             _ => 3,
         };
         let est_cmp = (n as f64 * ((n.max(2)) as f64).log2()).max(1.0) as u64;
-        let k = if cancel_mode == 2 { 1 + rng.below(est_cmp as usize + 1) as u64 } else { u64::MAX };
+        let (cancel_mode, k) = if sentinel_heavy && rng.chance(3, 4) {
+            // partitioning costs about n comparisons per level, sorting the distinct side short*log2(short)
+            let lo = n / 2;
+            let hi = 3 * n + short_side * 14;
+            (2, (lo + rng.below(hi - lo)) as u64)
+        } else {
+            (cancel_mode, if cancel_mode == 2 { 1 + rng.below(est_cmp as usize + 1) as u64 } else { u64::MAX })
+        };
         let flag = AtomicBool::new(cancel_mode == 1);
         let raised = AtomicBool::new(cancel_mode == 1);
         let calls = AtomicU64::new(0);
